@@ -41,7 +41,9 @@ class Program(object):
         def sh(x): return '' if x is None else str(x)
         if f[0] == 'list': t += '[:]'
         elif f[0] == 'slice': t += '[%s:%s]' % (sh(f[1]), sh(f[2]))
-        elif f[0] == 'aggr': t += '.%s(%s)' % (f[1].lower(), repr(f[2]) if len(f) > 2 else '')
+        elif f[0] == 'aggr':
+            args = ([repr(f[2])] if len(f) > 2 and (f[2] is not None or f[1] == 'GROUP_CONCAT') else []) + (['distinct=%r' % f[3]] if len(f) > 3 and f[3] is not None else [])
+            t += '.%s(%s)' % (f[1].lower(), ', '.join(args))
         elif f[0] == 'page': t += '.page(%s, %s)' % (f[1], f[2])
         elif f[0] == 'limit': t += '.limit(%s, offset=%s)' % (f[1], f[2])
         else: t += '.%s()' % f[0]
@@ -103,10 +105,10 @@ def loop_var(src):
     return t.generators[0].target.id
 
 
-def real_sql(db, q, limit=None, offset=None, aggr=None, sep=None):
+def real_sql(db, q, limit=None, offset=None, aggr=None, sep=None, aggr_distinct=None):
     """SQL text + parameter layout from the real translator and the real builder of the bound provider"""
     translator = q._translator
-    sql_ast, attr_offsets = translator.construct_sql_ast(limit, offset, q._distinct, aggr, None, sep, q._for_update, q._nowait, q._skip_locked)
+    sql_ast, attr_offsets = translator.construct_sql_ast(limit, offset, q._distinct, aggr, aggr_distinct, sep, q._for_update, q._nowait, q._skip_locked)
     provider = db.provider
     builder = provider.sqlbuilder_cls(provider, sql_ast)
     params = [x for x in builder.result if hasattr(x, 'paramkey')]
@@ -419,7 +421,7 @@ def encode_chain(db, S, prog, dialect):
         with db_session:
             q = build_query(db, prog)
             if final[0] == 'aggr':
-                sql, params, translator = real_sql(db, q, None, None, final[1], final[2] if len(final) > 2 else None)
+                sql, params, translator = real_sql(db, q, None, None, final[1], final[2] if len(final) > 2 else None, final[3] if len(final) > 3 else None)
             else:
                 # run the REAL method up to the point where it fetches: intercept Query._actual_fetch / QueryResult
                 lim_off = capture_fetch(q, final)
@@ -484,6 +486,10 @@ def encode_chain(db, S, prog, dialect):
     entity_result = bool(rows) and len(rows[0]['vals']) == 1 and isinstance(rows[0]['vals'][0], pysem.ERef)
     # the full result R as pony documents it: entity results and (by default) projections are duplicate-free
     set_semantics = entity_result or (distinct_flag is not False and (distinct_flag is True or tr_distinct))
+    explicit_aggr_distinct = final[3] if final[0] == 'aggr' and len(final) > 3 else None
+    if explicit_aggr_distinct is not None and not entity_result:
+        # q.count(distinct=...) / q.sum(distinct=...): the aggregate is taken over the distinct items / over every item, as asked
+        set_semantics = explicit_aggr_distinct
     if final[0] == 'first' and not c.get('order') and not c.get('order_numbers'):
         # first() on an unordered query orders by the result columns itself
         for r in rows: r['keys'] = [(v, False) for v in r['flat']]
@@ -492,7 +498,7 @@ def encode_chain(db, S, prog, dialect):
         if dups:
             if c.get('order') or c.get('order_numbers') or final[0] == 'first':
                 penv.region('order-by-drops-distinct', z3.Or(dups))
-            if final[0] == 'aggr' and final[1] in ('SUM', 'AVG'):
+            if final[0] == 'aggr' and final[1] in ('SUM', 'AVG') and explicit_aggr_distinct is None:
                 penv.region('sum-avg-ignore-default-distinct', z3.Or(dups))
         for i, r in enumerate(rows):
             dup = z3.Or([z3.And(rows[j]['g'], rows_equal(rows[j]['flat'], r['flat'])) for j in range(i)]) if i else FALSE
@@ -633,8 +639,9 @@ def run_real_chain(db, prog, scope_vals):
     with db_session:
         q = build_query(db, p2)
         if final[0] == 'aggr':
-            if final[1] == 'GROUP_CONCAT': v = q.group_concat(final[2] if len(final) > 2 else None)
-            else: v = getattr(q, final[1].lower())()
+            kw = {'distinct': final[3]} if len(final) > 3 and final[3] is not None else {}
+            if final[1] == 'GROUP_CONCAT': v = q.group_concat(final[2] if len(final) > 2 else None, **kw)
+            else: v = getattr(q, final[1].lower())(**kw)
             return [(v,)]
         if final[0] == 'list': items = q[:]
         elif final[0] == 'slice': items = q[final[1]:final[2]]
